@@ -164,6 +164,8 @@ pub struct Opts {
     pub write_evidence: bool,
     /// wall-clock safety cap in seconds for the seeded batch (never a verdict)
     pub max_wall_s: u64,
+    /// child mode: write a machine-readable summary here instead of evidence / VIOLATION lines
+    pub child_json: Option<PathBuf>,
 }
 
 #[derive(Clone, Debug, Deserialize)]
@@ -338,7 +340,7 @@ fn truncate_sample(v: Value) -> Value {
 }
 
 /// Delta-debug a failing scenario while the same invariant keeps failing.
-pub fn minimise<C: Check>(check: &C, sc: &C::Scenario, invariant: &str) -> (C::Scenario, Violation, u64) {
+pub fn minimise<C: Check>(check: &C, sc: &C::Scenario, invariant: &str) -> Option<(C::Scenario, Violation, u64)> {
     let exec = |s: &C::Scenario| -> Option<Violation> {
         let mut st = RunStats::default();
         crate::free::reset_run_state();
@@ -347,7 +349,9 @@ pub fn minimise<C: Check>(check: &C, sc: &C::Scenario, invariant: &str) -> (C::S
         check.execute(s, &mut st).into_iter().find(|v| v.invariant == invariant)
     };
     let mut cur = sc.clone();
-    let mut cur_v = exec(&cur).expect("violation reproduces before minimisation");
+    // a violation that does not reproduce when its resolved scenario is executed again is not
+    // believed: the caller reports it as a harness error, never as a violation
+    let mut cur_v = exec(&cur)?;
     let mut execs = 1u64;
     let t0 = Instant::now();
     'outer: loop {
@@ -367,7 +371,7 @@ pub fn minimise<C: Check>(check: &C, sc: &C::Scenario, invariant: &str) -> (C::S
         }
         break;
     }
-    (cur, cur_v, execs)
+    Some((cur, cur_v, execs))
 }
 
 #[derive(Serialize, Deserialize)]
@@ -408,6 +412,52 @@ pub fn replay<C: Check>(check: &C, file: &ReplayFile) -> Option<Violation> {
     v.into_iter().find(|v| v.invariant == file.invariant)
 }
 
+fn found_is_empty(summary: &Value) -> bool {
+    summary["found"].as_array().map(|a| a.is_empty()).unwrap_or(true)
+}
+
+/// Run another bpsim binary (e.g. another build profile) as a child and turn its summary into an
+/// extra phase.
+pub fn child_phase(name: &str, bin: &str, args: &[String], envs: &[(&str, &str)]) -> ExtraPhase {
+    let tmp = std::env::temp_dir().join(format!("bpsim-child-{}-{}.json", std::process::id(), name));
+    let mut cmd = std::process::Command::new(bin);
+    cmd.args(args).arg("--child-json").arg(&tmp);
+    for (k, v) in envs {
+        cmd.env(k, v);
+    }
+    let status = cmd.status();
+    let mut ph = ExtraPhase {
+        name: name.to_string(),
+        evaluations: 0,
+        distinct: 0,
+        info: Value::Null,
+        found: Vec::new(),
+        error: None,
+    };
+    match status {
+        Ok(s) if s.code() == Some(0) || s.code() == Some(1) => match std::fs::read_to_string(&tmp) {
+            Ok(txt) => {
+                let v: Value = serde_json::from_str(&txt).unwrap_or(Value::Null);
+                ph.evaluations = v["evaluations"].as_u64().unwrap_or(0);
+                ph.distinct = v["distinct"].as_u64().unwrap_or(0);
+                if let Some(a) = v["found"].as_array() {
+                    for f in a {
+                        if let Ok(viol) = serde_json::from_value::<Violation>(f["violation"].clone()) {
+                            ph.found.push((viol, f["scenario"].clone()));
+                        }
+                    }
+                }
+                ph.info = json!({"runs": v["runs"], "faults": v["faults"], "probes": v["probes"], "known_hits": v["known_hits"], "wall_s": v["wall_s"]});
+            },
+            Err(e) => ph.error = Some(format!("child summary unreadable: {}", e)),
+        },
+        Ok(s) => ph.error = Some(format!("child {} exited with {:?}", bin, s.code())),
+        Err(e) => ph.error = Some(format!("child {} could not be started: {}", bin, e)),
+    }
+    let _ = std::fs::remove_file(&tmp);
+    ph
+}
+
 pub struct ExtraPhase {
     pub name: String,
     pub evaluations: u64,
@@ -430,6 +480,30 @@ pub fn drive<C: Check>(check: &C, opts: &Opts, extra: Vec<ExtraPhase>) -> i32 {
         opts.jobs
     );
     let res = run_batch(check, opts);
+    if let Some(p) = &opts.child_json {
+        let mut seen = BTreeSet::new();
+        let mut found = Vec::new();
+        for f in &res.found {
+            if !seen.insert(f.violation.invariant.clone()) {
+                continue;
+            }
+            match minimise(check, &f.scenario, &f.violation.invariant) {
+                Some((min_sc, min_v, _)) => found.push(json!({"violation": min_v, "scenario": serde_json::to_value(&min_sc).unwrap(), "index": f.index})),
+                None => {
+                    eprintln!("HARNESS-ERROR run {} reported {} but re-executing its scenario did not reproduce it (nondeterminism in the harness)", f.index, f.violation.invariant);
+                    return 2;
+                },
+            }
+        }
+        let summary = json!({
+            "runs": res.runs, "evaluations": res.evals, "distinct": res.distinct_nontrivial, "steps": res.steps,
+            "faults": res.faults, "probes": res.probes, "groups": res.groups, "found": found,
+            "known_hits": res.known_hits.iter().map(|(k, v)| json!({"key": k, "what": v.0, "n": v.1})).collect::<Vec<_>>(),
+            "wall_s": res.wall_s,
+        });
+        std::fs::write(p, serde_json::to_string(&summary).unwrap()).expect("write child summary");
+        return if found_is_empty(&summary) { 0 } else { 1 };
+    }
     let mut exit = 0;
     let mut violations = 0u64;
     for (key, (what, n)) in &res.known_hits {
@@ -441,8 +515,11 @@ pub fn drive<C: Check>(check: &C, opts: &Opts, extra: Vec<ExtraPhase>) -> i32 {
         if !seen_inv.insert(f.violation.invariant.clone()) || seen_inv.len() > 3 {
             continue;
         }
+        let Some((min_sc, min_v, execs)) = minimise(check, &f.scenario, &f.violation.invariant) else {
+            eprintln!("HARNESS-ERROR run {} reported {} but re-executing its scenario did not reproduce it (nondeterminism in the harness)", f.index, f.violation.invariant);
+            return 2;
+        };
         violations += 1;
-        let (min_sc, min_v, execs) = minimise(check, &f.scenario, &f.violation.invariant);
         let rf = ReplayFile {
             property: check.id().to_string(),
             seed: opts.seed,
